@@ -28,6 +28,9 @@ struct Inner {
     pending_tx: Vec<u8>,
     /// what the writer still has to offer of the buffer it is writing (write_all comes back with exactly this)
     expect_rest: Option<Vec<u8>>,
+    /// the transport does not take any byte from the writer for now (its write stays pending)
+    hold_writes: bool,
+    wwaker: Option<Waker>,
 }
 
 pub struct ScriptIo {
@@ -105,6 +108,16 @@ impl IoHandle {
     pub fn set_max_write(&self, n: usize) {
         self.lock().max_write = n;
     }
+    /// stop / resume taking bytes from the writer
+    pub fn hold_writes(&self, on: bool) {
+        let mut g = self.lock();
+        g.hold_writes = on;
+        if !on {
+            if let Some(w) = g.wwaker.take() {
+                w.wake();
+            }
+        }
+    }
     pub fn record_tx(&self, on: bool) {
         self.lock().record_tx = on;
     }
@@ -169,10 +182,14 @@ impl AsyncRead for ScriptIo {
 impl AsyncWrite for ScriptIo {
     fn poll_write(
         self: Pin<&mut Self>,
-        _cx: &mut Context<'_>,
+        cx: &mut Context<'_>,
         buf: &[u8],
     ) -> Poll<io::Result<usize>> {
         let mut g = self.inner.lock().unwrap_or_else(|e| e.into_inner());
+        if g.hold_writes && g.werr.is_none() {
+            g.wwaker = Some(cx.waker().clone());
+            return Poll::Pending;
+        }
         if let Some(kind) = g.werr {
             self.sink.bump();
             return Poll::Ready(Err(io::Error::from(kind)));
